@@ -3,6 +3,7 @@ package rules
 import (
 	"fmt"
 	"go/token"
+	"go/types"
 	"sort"
 	"strings"
 
@@ -29,8 +30,12 @@ const (
 func allocsOfType(fn *ssa.Function, suffix string) []*ssa.Alloc {
 	var out []*ssa.Alloc
 	core.Instrs(fn, func(i ssa.Instruction) {
-		if al, ok := i.(*ssa.Alloc); ok && strings.HasSuffix(al.Type().String(), suffix) {
-			out = append(out, al)
+		if al, ok := i.(*ssa.Alloc); ok {
+			if pt, ok := al.Type().(*types.Pointer); ok {
+				if n, ok := pt.Elem().(*types.Named); ok && strings.HasSuffix(n.String(), suffix) {
+					out = append(out, al)
+				}
+			}
 		}
 	})
 	return out
